@@ -42,6 +42,72 @@ type NodeSpec struct {
 	Delay int64  `json:"delay"`           // ns of virtual time until the node answers
 	Ans   uint64 `json:"ans,omitempty"`   // the answer (identifies the node)
 	Deaf  bool   `json:"deaf,omitempty"`  // the call ignores cancellation of its context (stuck dial / DNS / TLS ...)
+	Prov  *ProvSpec `json:"prov,omitempty"` // the node is wrapped in the real lazy client
+}
+
+// ProvSpec scripts the provider of a lazily created node client.
+type ProvSpec struct {
+	Kind  string `json:"kind"`            // created (client exists already) | delay (returns the client after Delay, 0 = at once) | fail
+	Delay int64  `json:"delay,omitempty"` // ns
+	Class string `json:"class,omitempty"` // kind = fail: class and representative of the error
+	Rep   int    `json:"rep,omitempty"`
+}
+
+// effective: the node as the multi client sees it (used to place cancellations; the verdict uses Multi.lazy_node).
+func effective(n NodeSpec) NodeSpec {
+	if n.Prov == nil || n.Prov.Kind == "created" {
+		return n
+	}
+	if n.Prov.Kind == "fail" {
+		return NodeSpec{Out: "err", Class: n.Prov.Class, Delay: n.Prov.Delay}
+	}
+	n.Delay += n.Prov.Delay
+
+	return n
+}
+
+func effectiveAll(ns []NodeSpec) []NodeSpec {
+	out := make([]NodeSpec, len(ns))
+	for i, n := range ns {
+		out[i] = effective(n)
+	}
+
+	return out
+}
+
+func provTerm(n NodeSpec) string {
+	switch {
+	case n.Prov == nil:
+		return "PNone"
+	case n.Prov.Kind == "created":
+		return "PCreated"
+	case n.Prov.Kind == "fail":
+		return fmt.Sprintf("(PFail %s %d)", n.Prov.Class, n.Prov.Delay)
+	}
+
+	return fmt.Sprintf("(PDelay %d)", n.Prov.Delay)
+}
+
+// provider is the lazy client's provider for node n: it honours its context while it runs.
+func (n *scripted) provider(ctx context.Context) (eth2wrap.Client, error) {
+	p := n.spec.Prov
+	n.set("Pending")
+	if p.Delay > 0 {
+		tm := time.NewTimer(time.Duration(p.Delay))
+		defer tm.Stop()
+		select {
+		case <-tm.C:
+		case <-ctx.Done():
+			n.set(fmt.Sprintf("Cancelled %d", time.Since(n.start).Nanoseconds()))
+			return nil, ctx.Err()
+		}
+	}
+	if p.Kind == "fail" {
+		n.set(fmt.Sprintf("Done %d", time.Since(n.start).Nanoseconds()))
+		return nil, reps[p.Class][p.Rep].mk(n.tag)
+	}
+
+	return n, nil
 }
 
 // CancelSpec cancels the caller's context At ns after the call started.
@@ -82,6 +148,7 @@ type Case struct {
 	ObsInitF   []bool   `json:"obs_init_f,omitempty"`
 	WarmRes    string   `json:"warm_res,omitempty"`
 	SCoq       string   `json:"scoq,omitempty"` // scoped: the label as a Gallina term of type Multi.scase
+	LCoq       string   `json:"lcoq,omitempty"` // lazy: the label as a Gallina term of type Multi.lcase
 	Bodies     []string `json:"bodies"`  // Proxy style, primaries then fallbacks: "" not read | ok | bad:<what the node read>
 	Problems   []string `json:"problems,omitempty"`
 	AfterBlock string   `json:"after_block,omitempty"` // what a blocked call returned once the harness cancelled it
@@ -373,6 +440,20 @@ func runCase(t *testing.T, spec CaseSpec) Case {
 				return cls
 			}
 			primCl, fbCl = wrap(prim, sc.InitP), wrap(fb, sc.InitF)
+		} else {
+			lazify := func(ns []*scripted, cls []eth2wrap.Client) {
+				for i, n := range ns {
+					switch {
+					case n.spec.Prov == nil:
+					case n.spec.Prov.Kind == "created":
+						cls[i] = eth2wrap.NewLazyForT(n)
+					default:
+						cls[i] = eth2wrap.NewLazyUninitForT(n.provider)
+					}
+				}
+			}
+			lazify(prim, primCl)
+			lazify(fb, fbCl)
 		}
 
 		var cl eth2wrap.Client
@@ -486,6 +567,9 @@ func runCase(t *testing.T, spec CaseSpec) Case {
 		var horizon time.Duration = time.Hour
 		for _, n := range all {
 			horizon += time.Duration(n.spec.Delay)
+			if n.spec.Prov != nil {
+				horizon += time.Duration(n.spec.Prov.Delay)
+			}
 		}
 		if spec.Cancel != nil {
 			horizon += time.Duration(spec.Cancel.At)
@@ -529,8 +613,10 @@ func runCase(t *testing.T, spec CaseSpec) Case {
 		}
 		cancelRoot()
 		synctest.Wait()
-		if anyDeaf {
-			time.Sleep(2 * horizon) // let the abandoned calls drain before leaving the bubble
+		if anyDeaf || isLazy(spec) {
+			// let abandoned calls (and a provider that does not react to cancellation) drain before
+			// leaving the bubble: its clock stops when the root goroutine exits
+			time.Sleep(2 * horizon)
 		}
 	})
 
@@ -573,10 +659,31 @@ func runCase(t *testing.T, spec CaseSpec) Case {
 		}
 		c.SCoq = fmt.Sprintf("mks %s %s %s (%s)", a, bl(c.ObsInitP), bl(c.ObsInitF), c.Coq)
 	}
+	if isLazy(spec) {
+		pl := func(ns []NodeSpec) string {
+			ss := make([]string, len(ns))
+			for i, n := range ns {
+				ss[i] = provTerm(n)
+			}
+
+			return "[" + strings.Join(ss, "; ") + "]"
+		}
+		c.LCoq = fmt.Sprintf("mkl %s %s (%s)", pl(spec.Prim), pl(spec.Fb), c.Coq)
+	}
 	c.Nontrivial = len(spec.Prim) >= 2 && (strings.HasPrefix(c.Res, "(ROk (F") || strings.HasPrefix(c.Res, "(RErr") ||
 		(strings.HasPrefix(c.Res, "(ROk (P") && anyOut(spec.Prim, "err", "hang")))
 
 	return c
+}
+
+func isLazy(c CaseSpec) bool {
+	for _, n := range append(append([]NodeSpec{}, c.Prim...), c.Fb...) {
+		if n.Prov != nil {
+			return true
+		}
+	}
+
+	return false
 }
 
 func anyOut(ns []NodeSpec, outs ...string) bool {
@@ -639,6 +746,9 @@ func render(c *Case, cl eth2wrap.Client, all []*scripted, err error, ans uint64,
 		n := byTag(te.tag)
 		if n != nil && strings.HasPrefix(n.body, "bad:") { // the node rejected a request it did not receive intact
 			return fmt.Sprintf("(RErr %s Other)", nodeRef(n.tag))
+		}
+		if n != nil && n.spec.Prov != nil && n.spec.Prov.Kind == "fail" { // the node's client could not be created
+			return fmt.Sprintf("(RErr %s %s)", nodeRef(n.tag), n.spec.Prov.Class)
 		}
 		if n == nil || n.spec.Out != "err" {
 			c.Problems = append(c.Problems, "error of an unknown node: "+err.Error())
@@ -806,6 +916,7 @@ func (g *gen) exhaustive(style string, maxP, maxF int, full bool) {
 func timeline(c CaseSpec) []int64 {
 	var ts []int64
 	var maxP int64
+	c.Prim, c.Fb = effectiveAll(c.Prim), effectiveAll(c.Fb)
 	for _, n := range c.Prim {
 		if n.Out != "hang" {
 			ts = append(ts, n.Delay)
@@ -911,7 +1022,7 @@ func (g *gen) wide() {
 
 			return a
 		}
-		for _, n := range []int{9, 12} {
+		for _, n := range []int{9, 12, 17, 18, 25, 33, 40} {
 			var hung, slow, failing []NodeSpec
 			for i := 0; i < n-1; i++ {
 				hung = append(hung, NodeSpec{Out: "hang"})
@@ -924,6 +1035,39 @@ func (g *gen) wide() {
 			fok := ok
 			fok.Ans = ans(uint64(200 + n - 1))
 			g.add(CaseSpec{Kind: "wide", Style: st, Prim: failing, Fb: append(append([]NodeSpec{}, hung...), fok)})
+		}
+		// 17..40 nodes, one healthy node at a random position among hung / slow / failing ones: a hung
+		// prefix of at least 16 before it, or anywhere; as primaries and as fallbacks
+		for k := 0; k < 6; k++ {
+			n := 17 + g.r.Intn(24)
+			p := g.r.Intn(n)
+			if k%2 == 0 {
+				p = 16 + g.r.Intn(n-16)
+			}
+			group := func(okAns uint64) []NodeSpec {
+				v := make([]NodeSpec, n)
+				for i := range v {
+					switch {
+					case i == p:
+						v[i] = NodeSpec{Out: "ok", Delay: 5 * ms, Ans: ans(okAns)}
+					case i < p && k%2 == 0:
+						v[i] = NodeSpec{Out: "hang"}
+					default:
+						switch g.r.Intn(3) {
+						case 0:
+							v[i] = NodeSpec{Out: "hang"}
+						case 1:
+							v[i] = NodeSpec{Out: "err", Class: "Other", Rep: 3, Delay: int64(time.Hour) + int64(i)*ms}
+						default:
+							v[i] = NodeSpec{Out: "err", Class: classes[g.r.Intn(len(classes))], Delay: int64(10+i) * ms}
+						}
+					}
+				}
+
+				return v
+			}
+			g.add(CaseSpec{Kind: "wide", Style: st, Prim: group(uint64(100 + p))})
+			g.add(CaseSpec{Kind: "wide", Style: st, Prim: []NodeSpec{{Out: "err", Class: "Gateway", Delay: ms}}, Fb: group(uint64(200 + p))})
 		}
 	}
 }
@@ -1059,6 +1203,63 @@ func (g *gen) scoped(thorough bool) {
 	}
 }
 
+// lazy: nodes wrapped in the real lazy client, provider immediate / delayed (up to the 30 s an HTTP
+// timeout against a hung node takes) / failing, first use or client already created, with a
+// cancellation or deadline in every gap of the run.
+func (g *gen) lazy(thorough bool) {
+	outs := []NodeSpec{{Out: "ok"}, {Out: "err", Class: "Gateway"}, {Out: "err", Class: "Other"}, {Out: "hang"}}
+	provs := func() []*ProvSpec {
+		return []*ProvSpec{
+			{Kind: "created"},
+			{Kind: "delay"},
+			{Kind: "delay", Delay: int64(3*time.Millisecond) + 1},
+			{Kind: "delay", Delay: int64(30*time.Second) + 7},
+			{Kind: "fail", Delay: int64(2*time.Second) + 3, Class: "Timeout", Rep: 2},
+			{Kind: "fail", Class: "Other", Rep: 3},
+		}
+	}
+	var nodes []NodeSpec
+	for _, o := range outs {
+		for _, p := range provs() {
+			n := o
+			n.Prov = p
+			nodes = append(nodes, n)
+		}
+	}
+	fbs := [][]NodeSpec{{}, {{Out: "ok", Prov: &ProvSpec{Kind: "delay"}}}, {{Out: "hang", Prov: &ProvSpec{Kind: "delay", Delay: int64(30*time.Second) + 7}}}}
+	emit := func(st string, pv []NodeSpec, fv []NodeSpec) {
+		os := orders(pv)
+		c := CaseSpec{Kind: "lazy", Style: st, Prim: g.place(st, "P", pv, os[g.r.Intn(len(os))]), Fb: g.place(st, "F", fv, orders(fv)[0])}
+		g.add(c)
+		g.withCancels(c, "lazy")
+	}
+	styles := []string{"Plain", "Submit"}
+	for _, st := range styles {
+		for _, n := range nodes {
+			for _, fv := range fbs {
+				emit(st, []NodeSpec{n}, fv)
+			}
+		}
+	}
+	pairs := 120
+	if thorough {
+		pairs = len(nodes) * len(nodes)
+	}
+	for k := 0; k < pairs; k++ {
+		a, b := nodes[g.r.Intn(len(nodes))], nodes[g.r.Intn(len(nodes))]
+		if thorough {
+			a, b = nodes[k/len(nodes)], nodes[k%len(nodes)]
+		}
+		if g.r.Intn(4) == 0 {
+			b.Prov = nil // a plain node next to a lazy one
+		}
+		emit(styles[k%2], []NodeSpec{a, b}, fbs[g.r.Intn(len(fbs))])
+		if thorough {
+			emit("Pred", []NodeSpec{a, b}, fbs[g.r.Intn(len(fbs))])
+		}
+	}
+}
+
 // classification: every constructed error as the failure of a single primary with one healthy
 // fallback; "consulted" is read off the fallback's status.
 type classRow struct {
@@ -1115,6 +1316,11 @@ func TestGen(t *testing.T) {
 	ms := int64(time.Millisecond)
 	corpus := []CaseSpec{
 		{Style: "Plain", Prim: []NodeSpec{{Out: "hang"}, {Out: "ok", Delay: 5 * ms, Ans: 101}, {Out: "ok", Delay: 900 * ms, Ans: 102}}},
+		// first use of a hung primary and a hung fallback whose providers take 30 s; the caller gives up after 100 ms
+		{Style: "Plain", Prim: []NodeSpec{{Out: "hang", Prov: &ProvSpec{Kind: "delay", Delay: 30 * 1000 * ms}}},
+			Fb: []NodeSpec{{Out: "hang", Prov: &ProvSpec{Kind: "delay", Delay: 30 * 1000 * ms}}}, Cancel: &CancelSpec{At: 100 * ms}},
+		{Style: "Submit", Prim: []NodeSpec{{Out: "hang", Prov: &ProvSpec{Kind: "delay", Delay: 30 * 1000 * ms}}},
+			Fb: []NodeSpec{{Out: "hang", Prov: &ProvSpec{Kind: "delay", Delay: 30 * 1000 * ms}}}, Cancel: &CancelSpec{At: 100 * ms, Deadline: true}},
 		// fresh lazy clients, first primary down, second healthy, called through ClientForAddress("")
 		{Style: "Plain", Prim: []NodeSpec{{Out: "err", Class: "Other", Rep: 2, Delay: ms}, {Out: "ok", Delay: 2 * ms, Ans: 101}},
 			Scoped: &ScopeSpec{InitP: []bool{false, false}, Addr: ""}},
@@ -1146,6 +1352,7 @@ func TestGen(t *testing.T) {
 	g.wide()
 	g.deaf(true)
 	g.scoped(hx.Thorough())
+	g.lazy(hx.Thorough())
 
 	styles := []string{"Plain", "Submit", "Pred"}
 	if hx.Thorough() {
